@@ -29,6 +29,11 @@ pub struct C07Case {
   pub mixed: Vec<WriterPlan>,
   /// when replaying a violation: only this plan (None = enumerate all)
   pub only_plan: Option<WriterPlan>,
+  /// histories: each of these plans is the *first* call on a fresh object
+  /// built from the same tree (nothing observed before it); the views are
+  /// compared afterwards
+  #[serde(default)]
+  pub first_plans: Vec<WriterPlan>,
 }
 
 pub struct C07;
@@ -293,6 +298,45 @@ pub fn check_case(case: &C07Case) -> (Vec<Violation>, Counters, bool, Option<Wri
   // afterwards all views are unchanged
   let v1 = views(dynobj);
   violations.extend(check_views(&v1, &text, &bytes, "after the faulty writers"));
+  // histories that start with to_writer: a (fragmented, interrupted, failing)
+  // write is the first call on a cold object, the views come afterwards
+  if violations.is_empty() {
+    for (n, plan) in case.first_plans.iter().enumerate() {
+      let mut b2 = Builder::new();
+      let fresh = b2.build(&case.tree);
+      let fresh_dyn: &Dyn = fresh.as_ref();
+      let a = exec_op(&[fresh_dyn], 0, &OpKind::ToWriter { plan: plan.clone() }, &ctx(50_000 + n as u64)).unwrap_or(Answer::NotRun);
+      counters.inc("probe:to_writer_first_on_cold_object");
+      if let Answer::Written { io, .. } = &a {
+        counters.add("fault:short_write_fired", io.short_writes);
+        counters.add("fault:eintr_fired", io.eintr);
+        counters.add("fault:hard_write_error_fired", io.hard_errors);
+        counters.add("fault:write_zero_fired", io.zero_returns);
+      }
+      if let Some(d) = judge_written(&a, plan, &bytes) {
+        violations.push(Violation {
+          kind: "writer".into(),
+          op_class: "to_writer".into(),
+          detail: format!("first call on a cold object, plan {:?}: {}", plan, d),
+        });
+        break;
+      }
+      let when = format!("after a first to_writer on a cold object (plan {:?})", plan);
+      let v2 = views(fresh_dyn);
+      violations.extend(check_views(&v2, &text, &bytes, &when));
+      let again = exec_op(&[fresh_dyn], 0, &OpKind::ToWriter { plan: WriterPlan::default() }, &ctx(60_000 + n as u64)).unwrap_or(Answer::NotRun);
+      if let Some(d) = judge_written(&again, &WriterPlan::default(), &bytes) {
+        violations.push(Violation {
+          kind: "writer".into(),
+          op_class: "to_writer".into(),
+          detail: format!("{}: a second, fault-free to_writer: {}", when, d),
+        });
+      }
+      if !violations.is_empty() {
+        break;
+      }
+    }
+  }
   (violations, counters, false, first_bad)
 }
 
@@ -328,8 +372,52 @@ impl C07 {
         _ => TreeSpec::Concat { children: vec![big, tree], how: crate::spec::ConcatHow::AddLater },
       };
     }
+    if rng.chance(10) {
+      // many-children swarm mode: a ConcatSource with a child count next to a
+      // power of two (31 .. 1028), tiny children
+      let n = crate::gen::magic_count(&mut rng, 10);
+      let children = (0..n)
+        .map(|i| match rng.below(8) {
+          0 => TreeSpec::Raw { text: String::new() },
+          1 => TreeSpec::RawString { text: "\n".into() },
+          2 if !ascii => TreeSpec::RawBytes { bytes: vec![0xff] },
+          3 => TreeSpec::Original { text: format!("{};", i % 10), name: "a.js".into() },
+          _ => TreeSpec::Raw { text: std::char::from_digit((i % 36) as u32, 36).unwrap().to_string() },
+        })
+        .collect();
+      let wide = TreeSpec::Concat {
+        children,
+        how: if rng.chance(500) { crate::spec::ConcatHow::New } else { crate::spec::ConcatHow::AddLater },
+      };
+      tree = match rng.below(3) {
+        0 => wide,
+        1 => TreeSpec::Concat { children: vec![tree, wide], how: crate::spec::ConcatHow::New },
+        _ => TreeSpec::Cached { inner: Box::new(wide), cache_id: 900 },
+      };
+    }
     let n_mixed = rng.usize_below(4);
     let mixed = (0..n_mixed).map(|_| crate::conc::gen_writer_plan(&mut rng)).collect();
+    let len = content(&tree).1.len() as u64;
+    let k = if len == 0 { 0 } else { rng.below(len) };
+    let first_plans = vec![
+      // succeeds, but in fragments and with interruptions
+      WriterPlan {
+        max_chunk: 1 + rng.below(5) as u32,
+        eintr_every: if rng.chance(600) { 1 + rng.below(3) as u32 } else { 0 },
+        eintr_burst: 1 + rng.below(2) as u32,
+        ..Default::default()
+      },
+      match rng.below(4) {
+        // fails for good at k
+        0 => WriterPlan { fail_at: Some(k), max_chunk: rng.below(4) as u32, ..Default::default() },
+        // the sink is full at k
+        1 => WriterPlan { zero_at: Some(k), max_chunk: rng.below(4) as u32, ..Default::default() },
+        // fails once at k, then accepts again
+        2 => WriterPlan { fail_at: Some(k), transient: true, max_chunk: rng.below(4) as u32, ..Default::default() },
+        // one interrupted call, whole-buffer writes otherwise
+        _ => WriterPlan { eintr_every: 2, eintr_burst: 1, ..Default::default() },
+      },
+    ];
     C07Case {
       kind: "views".into(),
       tree,
@@ -338,6 +426,7 @@ impl C07 {
       eintr_burst: 1 + rng.below(3) as u32,
       mixed,
       only_plan: None,
+      first_plans,
     }
   }
 
@@ -425,7 +514,7 @@ impl Property for C07 {
     (serde_json::to_value(&cur).unwrap(), from)
   }
   fn rule(&self) -> String {
-    "case = one source tree over all eight source types (both binary leaf types with invalid UTF-8, ConcatSource built by new / add-later / nested typed, ReplaceSource, CachedSource, user-defined and re-boxed children) drawn from splitmix(VERIF_SEED, run index). Per tree: the four views are compared with a structural content model, then to_writer is executed once per failure offset k in 0..=len+1 in five modes (whole-buffer, short writes, short writes + EINTR bursts, a transient failure after which the sink accepts again, Ok(0) at k) plus fragmentation-only and seeded mixed plans; exhaustive in k per tree for trees up to 600 bytes (3 % of the trees carry an 8-20 KiB leaf and use the offsets around every power-of-two boundary plus a seeded sample), trees sampled. distinct_nontrivial = distinct composite trees with non-empty content.".into()
+    "case = one source tree over all eight source types (both binary leaf types with invalid UTF-8, ConcatSource built by new / add-later / nested typed, ReplaceSource, CachedSource, user-defined and re-boxed children) drawn from splitmix(VERIF_SEED, run index). Per tree: the four views are compared with a structural content model, then to_writer is executed once per failure offset k in 0..=len+1 in five modes (whole-buffer, short writes, short writes + EINTR bursts, a transient failure after which the sink accepts again, Ok(0) at k) plus fragmentation-only and seeded mixed plans; exhaustive in k per tree for trees up to 600 bytes (3 % of the trees carry an 8-20 KiB leaf and use the offsets around every power-of-two boundary plus a seeded sample), trees sampled (1% are a ConcatSource of 31 .. 1028 tiny children, the count next to a power of two). Histories that start with the writer: two plans (fragmented + interrupted; failing / full / transient / one EINTR) are each the first call on a fresh object of the same tree, followed by the four views and a fault-free to_writer. distinct_nontrivial = distinct composite trees with non-empty content.".into()
   }
   fn assumptions(&self) -> Vec<String> {
     vec![
